@@ -1,4 +1,5 @@
 import RodbusModel.Props.C01
+import RodbusModel.Props.C01Stream
 import RodbusModel.Props.Tables
 /- axiom audit for C01: every line must report a subset of {propext, Classical.choice, Quot.sound} -/
 #print axioms Rodbus.C01.handleFrame_eq_spec
@@ -41,3 +42,7 @@ import RodbusModel.Props.Tables
 #print axioms Rodbus.Tables.server_limits_sharp
 #print axioms Rodbus.Tables.request_function_correct
 #print axioms Rodbus.Tables.broadcast_table_correct
+#print axioms Rodbus.C01Stream.stream_replies
+#print axioms Rodbus.C01Stream.session_chunking_independent
+#print axioms Rodbus.C01Stream.handleEvents_uses_reference_server
+#print axioms Rodbus.C01Stream.readerRun_eq_spec
